@@ -64,10 +64,11 @@ def make_case(rng, ref, k, sizes=None):
     tracers = hodref.gen_tracers(rng, sub, fancy=bool(k % 3))
     enable_ranks = bool(k % 2)
     rsd = bool((k // 2) % 2)
-    origin = None if (k // 4) % 3 else np.array([-990.0, -990.0, -990.0])
+    origin = None if (k // 4) % 3 else np.array([-990.0, -830.0, -1100.0])  # distinct components
     params = dict(z=0.5, velz2kms=float(rng.uniform(50, 200)), Lbox=lbox, origin=origin, Mpart=2.1e9, chunk=-1)
     # plant decisive randoms
-    ce = ref.cent_markers(halo, tracers)
+    etr = hodref.evolved(tracers, params['z'])
+    ce = ref.cent_markers(halo, etr)
     nplant = plant(rng, halo['hrandoms'], ce)
     edge_hosts = 0
     if rsd and origin is None and H >= 17 and k % 2 == 0:
@@ -89,10 +90,10 @@ def make_case(rng, ref, k, sizes=None):
                 part['pvel'][pidx, 2] = vz
                 part['prandoms'][pidx] = 0.0
             edge_hosts += 1
-        ce = ref.cent_markers(halo, tracers)
+        ce = ref.cent_markers(halo, etr)
     keepc, _ = hodref.decide(halo['hrandoms'], ce)
     if P:
-        se = ref.sat_markers(part, tracers, enable_ranks, keepc[part['pinds']])
+        se = ref.sat_markers(part, etr, enable_ranks, keepc[part['pinds']])
         keep0 = part['prandoms'] == 0.0
         nplant += plant(rng, part['prandoms'], se)
         part['prandoms'][keep0 & (se[1] > 1e-12)] = 0.0
